@@ -746,6 +746,10 @@ class Walker:
             return None
         return g
 
+    def _sub_walker(self, body, **kw):
+        """the walker used for a callee read in place; subclasses with their own inlining policy override this"""
+        return Walker(self.F, body, **kw)
+
     def _inline_call(self, bb, t, env, args, dst, callee):
         pre2 = "%sF%d:" % (self.pre, self.depth + 1)
         env2 = Env(env)
@@ -758,7 +762,7 @@ class Walker:
             if v is not None:
                 env2[dk] = v
         c = dict(self._ctor)
-        sub = type(self)(self.F, callee.body, want_ret=True, ret_prefixes=(), **c)     # subclasses keep their inlining policy
+        sub = self._sub_walker(callee.body, want_ret=True, ret_prefixes=(), **c)
         sub.pre, sub.depth, sub.frames = pre2, self.depth + 1, self.frames + (self.body.fn.q,)
         sub._full_ret = True
         sub.max_states = max(1000, self.max_states - self.states_explored)
